@@ -112,6 +112,9 @@ type ctxKey string
 const driverKey ctxKey = "partrefs-driver"
 const slowKey ctxKey = "partrefs-slow-put"
 
+// nParts is the number of part numbers of the model's multipart uploads (NParts of the Gen / Trace configs).
+const nParts = 3
+
 var bucket = storage.MustNewBucketName("partrefs")
 
 func keyOf(k string) storage.ObjectKey { return storage.MustNewObjectKey(k) }
@@ -487,7 +490,7 @@ func (e *env) observe() map[string]any {
 	}
 	uplOut := map[string]uplView{}
 	for _, u := range e.upls {
-		uplOut[u] = uplView{Parts: []int{0, 0}}
+		uplOut[u] = uplView{Parts: make([]int, nParts)}
 	}
 	byObj := map[string][]partRow{}
 	for _, p := range parts {
@@ -540,9 +543,9 @@ func (e *env) observe() map[string]any {
 			continue
 		}
 		known[o.id] = true
-		v := uplView{Act: true, Key: o.key, St: e.storeByClass(classOr(o.class)), Parts: []int{0, 0}}
+		v := uplView{Act: true, Key: o.key, St: e.storeByClass(classOr(o.class)), Parts: make([]int, nParts)}
 		for _, p := range ps {
-			if p.seq >= 1 && p.seq <= 2 {
+			if p.seq >= 1 && p.seq <= nParts {
 				v.Parts[p.seq-1] = e.ids[p.partID]
 			} else {
 				rowsok = false
